@@ -737,3 +737,40 @@ Definition ns_step (persist_first : bool) (t : nstab) (op : nsop) : nstab :=
   end.
 Definition ns_run (persist_first : bool) (t : nstab) (ops : list nsop) : nstab :=
   fold_left (ns_step persist_first) ops t.
+
+(** ** A parser OBJECT reading several documents (jobs/source/http_dataset_source.go reads one page
+    per ReadEntities call; proxy datasets one page per request).  The object's state is the
+    namespace map: reading a context only ADDS / overwrites bindings ([ns_merge]), nothing clears
+    it.  The pinned tree makes a fresh object per document ([reuse] = false), so every document is
+    parsed against its own context only. *)
+Definition ns_merge (old doc : nsmap) : nsmap :=
+  (doc ++ filter (fun ke => match lookup (fst ke) doc with Some _ => false | None => true end) old)%list.
+
+(** ParseStream on an object whose namespace map already holds [ns0]; returns the object's map *)
+Definition parse_stream_in (v : variant) (ns0 : nsmap) (fuel : nat) (eof : bool) (ts : list token)
+  : list ent * outcome * nsmap :=
+  match ts with
+  | TDelim DArrO :: ts1 =>
+    match parse_jv (jv_fuel fuel) ts1 with
+    | None => ([], OErr, ns0)
+    | Some (JObj ctx, ts2) =>
+      if is_context_id ctx then
+        match namespaces_of v ctx with
+        | Ok ns => let ns' := ns_merge ns0 ns in
+                   let '(es, o) := stream_loop v ns' fuel eof false ts2 in (es, o, ns')
+        | Err => ([], OErr, ns0) | Panic => ([], OPanic, ns0) | Fuel => ([], OFuel, ns0)
+        end
+      else ([], OErr, ns0)
+    | Some (_, _) => ([], OErr, ns0)
+    end
+  | _ => ([], OErr, ns0)
+  end.
+
+Fixpoint read_pages (reuse : bool) (v : variant) (ns0 : nsmap) (pages : list (list token * bool))
+  : list (list ent * outcome) :=
+  match pages with
+  | [] => []
+  | (ts, eof) :: ps =>
+    let '(es, o, ns') := parse_stream_in v ns0 (S (List.length ts)) eof ts in
+    (es, o) :: read_pages reuse v (if reuse then ns' else []) ps
+  end.
